@@ -23,13 +23,14 @@ ASSUMPTIONS = [
     "pre-emption bound K per obligation; scheduling points at every request on the pointer and lock objects (before / after the server acts) and at sleeps",
     "FakeS3: strongly consistent, conditional PUT (If-Match / If-None-Match), ETag = version counter, LastModified from the one global virtual clock",
     "the heartbeat is not an OS thread: quick tier = heartbeat starved (a paused process pauses it too); thorough tier adds it as an actor",
-    "'lost its lock before the commit point' is judged at the committer's metadata-file write, which precedes its fence read "
-    "(a takeover after the fence read but before the PUT is issued cannot be observed by any client and is made safe by the CAS)",
+    "'lost its lock before the commit point' is judged at the committer's metadata-file write and at its LAST request preceding the pointer "
+    "PUT (on a correct tree the fence read); a takeover after that last request but before the PUT is issued cannot be observed by any "
+    "client and is made safe by the CAS",
 ]
 TRUSTED = c01.TRUSTED
 
 
-def s3_commit(sp, ops=("append", "append"), K=2, lock="grantall", pause_max_ms=0, heartbeat=False, clock="sym"):
+def s3_commit(sp, ops=("append", "append"), K=2, lock="grantall", pause_max_ms=0, heartbeat=False, clock="sym", hint_fault=False):
     with Env(sp, rig="S", clock=clock, clock_kw={"sites": {"mm"}, "maxd": 2, "budget": 10}, lock=lock) as e:
         w = e.world
         w.clock.mode = "tick"
@@ -67,6 +68,18 @@ def s3_commit(sp, ops=("append", "append"), K=2, lock="grantall", pause_max_ms=0
                     _t.sleep(20.0)
                 return None
             sc.spawn(len(acts), hb)
+        if hint_fault:
+            # committer 0's pointer PUT may fail with a transient error BEFORE the server acts (request lost): nothing was written, the
+            # client cannot know; whatever it does next (give up as ambiguous, retry ...) must not turn a rival's commit into "mine"
+            from vf.rigs.fakes3 import cerr
+            fst = {"armed": True}
+
+            def lose_request(w_, label, info, a):
+                if fst["armed"] and a == 0 and label == "put>" and (info.get("key") or "").endswith(HINT):
+                    fst["armed"] = False
+                    if sp.choose(2, name="pointer_put_request_lost"):
+                        raise cerr("RequestTimeout", "PutObject", 500)
+            w.callbacks.append(lose_request)
         w.sched = sc
         try:
             sc.run()
@@ -128,6 +141,22 @@ def s3_commit(sp, ops=("append", "append"), K=2, lock="grantall", pause_max_ms=0
                 sp.require(still_there and last_writer == i, f"{kinds}: committer {i} was acknowledged although the lock object was last written by "
                            f"committer {last_writer} (or released) when it wrote its metadata file, i.e. it had lost its lock before its commit point "
                            f"(schedule {trace})", {"sig": f"{kinds}:acked-without-lock"})
+                # ... and the fence must be the LAST thing the committer does before it issues the pointer write: at its last own request
+                # preceding the pointer PUT (on a correct tree: the fence read of the lock object) the lock must still be its own.  Any other
+                # request in between (a metadata-file write, a listing ...) re-opens the window the fence exists to close.
+                mine = [r for r in e.s3.req_log if r[3] == i and r[1].endswith(">")]
+                hint_puts = [n for n, r in enumerate(mine) if r[1] == "put>" and r[2].endswith(HINT) and r[0] <= my_flip]
+                if hint_puts and hint_puts[-1] > 0:
+                    st_prev, lbl_prev, key_prev, _ = mine[hint_puts[-1] - 1]
+                    lw = None
+                    for (st, k, a, b, af) in e.s3.put_log:
+                        if k == lock_key[0] and st <= st_prev:
+                            lw = a
+                    there = e.s3.content_at(lock_key[0], st_prev) is not None
+                    sp.require(there and lw == i, f"{kinds}: committer {i} was acknowledged although at its last request before the pointer write "
+                               f"('{lbl_prev} {key_prev.rsplit('/', 1)[-1][:30]}') the lock object was last written by committer {lw} (or released): it lost its "
+                               f"lock before the commit point and nothing re-checked ownership afterwards (schedule {trace})",
+                               {"sig": f"{kinds}:acked-without-lock-at-last-request"})
 
 
 def obligations(tier):
@@ -138,6 +167,10 @@ def obligations(tier):
         obs.append(Ob(f"grantall.{'+'.join(ops)}.K{K}", "vf.props.c08:s3_commit", {"ops": list(ops), "K": K, "lock": "grantall", "_must_reach": ["ran"]},
                       timeout=T, bounds=f"2 committers {ops}, lock granting everyone, K={K}, in-flight positions of every pointer request",
                       weight=K * 3))
+    obs.append(Ob(f"grantall.lostput.append+append.K{K}", "vf.props.c08:s3_commit", {"ops": ["append", "append"], "K": K, "lock": "grantall", "hint_fault": True,
+                                                                                   "_must_reach": ["ran"]},
+                  timeout=T, bounds=f"2 committers, lock granting everyone, K={K}; committer 0's pointer PUT may be lost before the server acts "
+                                    f"(transient error, nothing written)", weight=K * 3))
     obs.append(Ob("reallock.pause.append+append.K2", "vf.props.c08:s3_commit",
                   {"ops": ["append", "append"], "K": 2, "lock": "real", "pause_max_ms": 130000, "_must_reach": ["ran"]}, timeout=T,
                   bounds="2 committers, real CAS lock (lease 60 s), symbolic pause 0..130 s at every pre-emption, K=2, heartbeat starved", weight=8))
